@@ -58,6 +58,7 @@ def mapping? (inits mode given : Sexp) : Option PMap := do
   match mode with
   | .atom "direct" => some (directMapping inits given)
   | .atom "merge" => some (mergedMapping inits given)
+  | .atom "merge-old" => some (mergedMappingOld inits given)
   | _ => none
 
 def optE : Option Expr → Sexp
